@@ -33,6 +33,10 @@ def _n(e):
 
 def check_isolate(rep, ix):
     ea = exc.ExcAnalysis(ix)
+    # the LIS frame plan divides by its frame size: positive by the invariant C20 proves (obligations R-C20-FRAMESIZE)
+    from . import C20
+    if C20._frame_size_positive(rep, ix):
+        ea.proved_nonzero = frozenset({('TotalDepth.LIS.core.Type01Plan', 'self._frameSize')})
     for mod, fn in PER_FILE:
         m = ix.module(mod)
         f = ix.get_func(mod, fn)
